@@ -22,7 +22,7 @@ RULE = (
     "moved tmp->final, metadata created/modified) are perturbed by Hypothesis: duplicates, stale modified events, "
     "events for vanished files, dropped events, replay of the whole history, start-up replay (the listing loop of "
     "start() with match_time=False); method in {copy, move, link}, destination on the same or another file system, "
-    "optional kind selection / time window. os.rename/link/remove/unlink/rmdir/makedirs and shutil.copyfile (split in "
+    "optional kind selection / time window, optionally one injected EIO on the n-th publishing rename. os.rename/link/remove/unlink/rmdir/makedirs and shutil.copyfile (split in "
     "two halves) are wrapped: at every such operation (i) any file under a final destination name equals a version its "
     "source had, (ii) in move mode every finalized RF file has an intact copy in source or destination (tmp. "
     "included), (iii) a metadata file is removed from the source only when an identical copy is in the destination. "
@@ -77,6 +77,8 @@ def _cases(draw, tier):
     case = {"chans": chans, "steps": out, "method": draw(st.sampled_from(["copy", "move", "move", "link"])),
             "xdev": draw(st.sampled_from([False, False, True])),
             "include_drf": True, "include_dmd": True, "start": None, "end": None}
+    # optionally one I/O fault: the n-th publishing rename inside the destination fails with EIO
+    case["fault"] = draw(st.sampled_from([None, None, None, 0, 1, 2, 3, 5, 8]))
     sel = draw(st.integers(0, 7))
     if sel == 0:
         case["include_dmd"] = False
@@ -109,6 +111,9 @@ class World:
         self.versions = {}  # relpath -> set of hashes the source file has had
         self.rf_final = {}  # relpath -> hash of finalized RF files
         self.latest = {}  # relpath -> hash of the newest version the source held
+        self.fault_at = None  # index of the destination rename that fails (once)
+        self.renames = 0
+        self.faulted = set()  # relpaths (under dest) whose publishing rename was made to fail
         self.fail = None
         self.checks = 0
         self.move = False
@@ -194,6 +199,12 @@ def wrapped(world):
                                  removing=str(a[0]) if removing_arg else None)
             finally:
                 active[0] = True
+            if name == "rename" and len(a) > 1 and str(a[1]).startswith(world.dest + os.sep):
+                idx = world.renames
+                world.renames += 1
+                if world.fault_at is not None and idx == world.fault_at:
+                    world.faulted.add(os.path.relpath(str(a[1]), world.dest))
+                    raise OSError(5, "Input/output error (injected)", str(a[1]))
             r = fn(*a, **k)
             active[0] = False
             try:
@@ -268,6 +279,7 @@ def run_case(case):
 def _run(case, res, base, stage, src, dest, ev, drf, list_drf, mirror):
     world = World(src, dest)
     world.move = case["method"] == "move"
+    world.fault_at = case.get("fault")
     # ---- stage the RF recordings with the real writer
     stage_files = {}
     models = {}
@@ -471,7 +483,14 @@ def _run(case, res, base, stage, src, dest, ev, drf, list_drf, mirror):
             continue
         sel.add(rel)
     present = set(_walk(dest)) if os.path.isdir(dest) else set()
-    tmpleft = [p for p in present if os.path.basename(p).startswith("tmp.")]
+    def _is_faulted_tmp(p):
+        return os.path.join(os.path.dirname(p), os.path.basename(p)[4:]) in world.faulted
+
+    tmpleft = [p for p in present if os.path.basename(p).startswith("tmp.") and not _is_faulted_tmp(p)]
+    sel -= world.faulted  # a file whose publishing rename failed may legitimately be missing (it must not be LOST)
+    maybe |= world.faulted
+    if world.faulted:
+        res.cls("injected-rename-fault")
     if tmpleft:
         res.fail("tmp-leftover:" + case["method"], "%s" % sorted(tmpleft)[:3])
     missing = sel - present
@@ -530,7 +549,8 @@ def _run(case, res, base, stage, src, dest, ev, drf, list_drf, mirror):
             try:
                 mr = drf.DigitalMetadataReader(os.path.join(dest, "ch%d" % ci, "metadata"))
                 from vlib import mdharness as M
-                exp = {k: j for k, j in md_model[ci].items() if "ch%d/metadata/%s" % (ci, M.exact_path(k, 100, 1, 2, 10, "metadata")) in sel}
+                have = sel | (world.faulted & present)  # a faulted file may have been mirrored by a later event after all
+                exp = {k: j for k, j in md_model[ci].items() if "ch%d/metadata/%s" % (ci, M.exact_path(k, 100, 1, 2, 10, "metadata")) in have}
                 # a file in sel holds all samples written to it (its last event was processed)
                 lo_k, hi_k = min(md_model[ci]), max(md_model[ci])
                 got = mr.read(lo_k, hi_k)
@@ -556,6 +576,8 @@ def shrink_candidates(case):
             yield dict(case, steps=steps[:i] + [dict(s, p="ok")] + steps[i + 1:])
     if len(case["chans"]) > 1:
         yield dict(case, chans=case["chans"][:1], steps=[s for s in steps if len(s["op"]) < 2 or s["op"][1] == 0])
-    for key, val in (("xdev", False), ("start", None), ("end", None), ("include_drf", True), ("include_dmd", True)):
+    for key, val in (("xdev", False), ("start", None), ("end", None), ("include_drf", True), ("include_dmd", True), ("fault", None)):
+        if key not in case:
+            continue
         if case[key] != val:
             yield dict(case, **{key: val})
